@@ -87,8 +87,9 @@ class E6(ARig):
         raise KeyError(who)
 
 
-def _engine_run(ch, callers, offsets, R, window, faulty_verbs, fixed=None, noise=None):
+def _engine_run(ch, callers, offsets, R, window, faulty_verbs, fixed=None, noise=None, batch=False):
     rig = E6(ch, window)
+    rig.loop.batch_choices_enabled = batch
     t_base = rig.loop.time()
     results = {}
     enter = {}
@@ -218,16 +219,17 @@ def _engine_job(job):
     if len(job[0]) > 5:
         noise = job[0][5]
     (callers, offsets, R, window, faulty) = job[0][:5]
+    batch = len(job[0]) > 6 and bool(job[0][6])
 
     def body(ch):
-        why, obs = _engine_run(ch, callers, offsets, R, window, faulty, noise=noise)
+        why, obs = _engine_run(ch, callers, offsets, R, window, faulty, noise=noise, batch=batch)
         viol = []
         if why:
             fv = [(k, c) for k, n, c in ch.trace if c]
             viol.append((f"C06|engine|{why[0]}|n={len(callers)}",
                          f"callers {callers} at offsets {offsets} R={R}, deviations {fv}: {why[1]}",
                          {"mode": "engine", "callers": list(callers), "offsets": list(offsets), "R": R,
-                          "window": window, "faulty": list(faulty), "noise": noise, "prefix": [list(p) for p in ch.trace]}))
+                          "window": window, "faulty": list(faulty), "noise": noise, "batch": batch, "prefix": [list(p) for p in ch.trace]}))
         return {"violations": viol, "obs": obs, "end": obs}
 
     return explore.run_with(prefix, body)
@@ -463,6 +465,26 @@ def run(ctx):
         texecs += st["executions"]
         states.update(st["obs"])
         explore.fold_stats(ctx, st, prefix="timers_")
+    # A2b: timers that expire together run back to back (asyncio's batch), e.g. a caller arriving in the very
+    # iteration in which the lock holder finishes, ahead of the queued waiter's wake-up
+    # the third caller's arrival sweeps a 10 ms grid over three polling periods, i.e. every alignment with the
+    # holder's finishing poll while the second caller is queued
+    bplans = [(("version", "press", "watercare"), (0.0, 0.05, round(0.06 + 0.01 * i, 2)), 1, 0.049, (), None, True)
+              for i in range(30)]
+    bplans += [
+        (("ping", "channel", "press"), (0.0, 0.1, 0.1), 1, 0.049, (), None, True),
+        (("version", "channel"), (0.0, 0.1), 2, 0.049, (), None, True),
+    ]
+    bexecs = 0
+    for plan in bplans:
+        st = explore.explore(ctx, _engine_job, plan, bound=1 if ctx.quick else 2, choice_kinds={"timer", "batch"},
+                             label=f"engine-batch{plan[:3]}", max_execs=20000 if ctx.quick else 200000)
+        bexecs += st["executions"]
+        states.update(st["obs"])
+        explore.fold_stats(ctx, st, prefix="batch_")
+    ctx.set("engine_batch_executions", bexecs)
+    ctx.log(f"engine: timer-order + batch deviations: {bexecs} executions")
+    texecs += bexecs
     ctx.set("engine_timer_executions", texecs)
     ctx.set("engine_timer_deviation_bound", tb)
     ctx.log(f"engine: timer-order deviations <= {tb}: {texecs} executions")
@@ -520,8 +542,8 @@ def replay(ctx, data):
     m = data.get("mode")
     if m == "engine":
         plan = (tuple(data["callers"]), tuple(data["offsets"]), data["R"], data["window"], tuple(data["faulty"]))
-        if data.get("noise"):
-            plan = plan + (tuple(data["noise"]),)
+        if data.get("noise") or data.get("batch"):
+            plan = plan + (tuple(data["noise"]) if data.get("noise") else None, bool(data.get("batch")))
         res = _engine_job((plan, [tuple(p) for p in data["prefix"]]))
         ctx.merge_violations(res["violations"])
     elif m == "full":
